@@ -317,7 +317,7 @@ func init() {
 		},
 		Enumerate: c12Enumerate,
 		Run:       c12Run,
-		Budget:    map[string]time.Duration{"quick": 150 * time.Second, "thorough": 30 * time.Minute},
+		Budget:    map[string]time.Duration{"quick": 400 * time.Second, "thorough": 30 * time.Minute},
 		Extra: func(stats map[string]int64, cov map[string]any) {
 			cov["states"] = stats["states"]
 			cov["transitions"] = stats["transitions"] + stats["sched_points"]
